@@ -3,12 +3,12 @@ package main
 import (
 	"bufio"
 	"encoding/json"
-	"os/exec"
-	"strconv"
 	"fmt"
 	"os"
+	"os/exec"
 	"path/filepath"
 	"sort"
+	"strconv"
 	"strings"
 	"sync"
 )
@@ -42,7 +42,7 @@ func selftest(ids []string) int {
 		var ref string
 		procs := 0
 		bad := false
-		for _, cfg := range []struct{ gmp, copies int }{{1, 1}, {4, 1}, {16, 1}, {1, 16}, {4, 16}} {
+		for _, cfg := range []struct{ gmp, copies int }{{1, 1}, {4, 1}, {16, 1}, {1, 16}, {4, 16}, {-1, 1}} {
 			res := make([]string, cfg.copies)
 			errs := make([]error, cfg.copies)
 			var wg sync.WaitGroup
@@ -50,7 +50,12 @@ func selftest(ids []string) int {
 				wg.Add(1)
 				go func(i int) {
 					defer wg.Done()
-					outs, err := explore(p, worker, filepath.Join(dir, fmt.Sprintf("g%dc%d_%d", cfg.gmp, cfg.copies, i)), seedEnv(), 1, 0, n, "quick", true, fmt.Sprintf("VERIF_GOMAXPROCS=%d", cfg.gmp))
+					env := []string{fmt.Sprintf("VERIF_GOMAXPROCS=%d", cfg.gmp)}
+					if cfg.gmp < 0 {
+						// the same seeds executed in reverse order: no run may depend on its predecessors
+						env = []string{"VERIF_GOMAXPROCS=1", "VERIF_REVERSE=1"}
+					}
+					outs, err := explore(p, worker, filepath.Join(dir, fmt.Sprintf("g%dc%d_%d", cfg.gmp, cfg.copies, i)), seedEnv(), 1, 0, n, "quick", true, env...)
 					if err != nil {
 						errs[i] = err
 						return
@@ -76,7 +81,7 @@ func selftest(ids []string) int {
 		if bad {
 			rc = 2
 		}
-		fmt.Printf("selftest %s: %d seeds x %d processes (GOMAXPROCS 1/4/16, alone and 16 at a time): identical=%v\n", id, n, procs, !bad)
+		fmt.Printf("selftest %s: %d seeds x %d processes (GOMAXPROCS 1/4/16, alone and 16 at a time, once in reverse order): identical=%v\n", id, n, procs, !bad)
 	}
 	return rc
 }
